@@ -18,42 +18,99 @@ Proof.
   destruct a; destruct r; cbn; try reflexivity. destruct H; congruence.
 Qed.
 
-(* a single added unit clause over an existing variable and NOTHING to remove takes the unit path *)
-Lemma dispatch_unit f l :
-  cache_hit f = false -> Z.abs l <= ig_nvars f -> dispatch f [[l]] [] = Decided StUnitClause.
+Definition general_of (f : facts) : decision :=
+  if negb (from_cnf f) then Decided StError
+  else if stored_cnf_empty f then Decided StRecompile else GraphDependent.
+
+Lemma dispatch_general f a r :
+  is_nil a && is_nil r = false -> cache_hit f = false ->
+  ~ (r = [] /\ exists l, a = [[l]]) -> dispatch f a r = general_of f.
 Proof.
-  intros Hc Hl. unfold dispatch. rewrite Hc. cbn [is_nil andb negb max_var fold_right].
-  assert (E : (ig_nvars f <? Z.max (Z.abs l) 0) = false) by (apply Z.ltb_ge; lia).
-  now rewrite E.
+  intros Hn Hc Hu. unfold dispatch. rewrite Hn, Hc. fold (general_of f).
+  destruct a as [|[|l [|l2 c]] [|c2 a]]; try reflexivity.
+  destruct r as [|cr r]; [|reflexivity]. exfalso. apply Hu. split; [reflexivity|]. now exists l.
 Qed.
 
-Lemma general_not_unit f :
-  (if stored_cnf_empty f
-   then (if root_is_node0 f then Decided StRecompile else Decided StTautology)
-   else GraphDependent) <> Decided StUnitClause.
-Proof. destruct (stored_cnf_empty f); [destruct (root_is_node0 f)|]; discriminate. Qed.
+Lemma general_not_unit f : general_of f <> Decided StUnitClause.
+Proof. unfold general_of. destruct (from_cnf f); [destruct (stored_cnf_empty f)|]; discriminate. Qed.
+
+(* a single added unit clause - over an existing or a NEW variable - and NOTHING to remove takes
+   the unit path *)
+Lemma dispatch_unit f l :
+  cache_hit f = false -> dispatch f [[l]] [] = Decided StUnitClause.
+Proof. intros Hc. unfold dispatch. rewrite Hc. reflexivity. Qed.
 
 (* the unit path is taken in exactly that case *)
 Lemma dispatch_unit_iff f a r :
   dispatch f a r = Decided StUnitClause <->
-  cache_hit f = false /\ r = [] /\ exists l, a = [[l]] /\ Z.abs l <= ig_nvars f.
+  cache_hit f = false /\ r = [] /\ exists l, a = [[l]].
 Proof.
   split.
   - unfold dispatch. intros H.
     destruct (is_nil a && is_nil r) eqn:En; [discriminate|].
-    destruct (cache_hit f) eqn:Ec; [discriminate|].
+    destruct (cache_hit f) eqn:Ec; [discriminate|]. fold (general_of f) in H.
     destruct a as [|[|l [|l2 c]] [|c2 a]]; try (exfalso; revert H; apply general_not_unit).
-    destruct r as [|cr r]; [|exfalso; revert H; cbn [is_nil andb]; apply general_not_unit].
-    cbn [is_nil andb negb max_var fold_right] in H.
-    destruct (ig_nvars f <? Z.max (Z.abs l) 0) eqn:E;
-      [exfalso; revert H; cbn [negb]; apply general_not_unit|].
-    apply Z.ltb_ge in E. split; [reflexivity|]. split; [reflexivity|]. exists l. split; [reflexivity|lia].
-  - intros [Hc [-> [l [-> Hl]]]]. now apply dispatch_unit.
+    destruct r as [|cr r]; [|exfalso; revert H; cbn [is_nil]; apply general_not_unit].
+    split; [reflexivity|]. split; [reflexivity|]. now exists l.
+  - intros [Hc [-> [l ->]]]. now apply dispatch_unit.
 Qed.
 
 (* an edit that removes something never takes the unit path (K26 repaired) *)
 Lemma dispatch_removal_not_unit f a r : r <> [] -> dispatch f a r <> Decided StUnitClause.
 Proof. intros Hr H. apply dispatch_unit_iff in H. destruct H as [_ [Hr' _]]. contradiction. Qed.
+
+(* every other edit on a d-DNNF without source CNF is refused (K3, K20, K21, K35 repaired by F28) *)
+Lemma dispatch_no_source f a r :
+  (a <> [] \/ r <> []) -> cache_hit f = false -> from_cnf f = false ->
+  ~ (r = [] /\ exists l, a = [[l]]) -> dispatch f a r = Decided StError.
+Proof.
+  intros Hne Hc Hf Hu. rewrite dispatch_general; [unfold general_of; now rewrite Hf|..]; try assumption.
+  destruct a; destruct r; cbn; try reflexivity. destruct Hne; congruence.
+Qed.
+
+Lemma dispatch_error_iff f a r :
+  dispatch f a r = Decided StError <->
+  (a <> [] \/ r <> []) /\ cache_hit f = false /\ from_cnf f = false /\ ~ (r = [] /\ exists l, a = [[l]]).
+Proof.
+  split.
+  - intros H. unfold dispatch in H.
+    destruct (is_nil a && is_nil r) eqn:En; [discriminate|].
+    destruct (cache_hit f) eqn:Ec; [discriminate|]. fold (general_of f) in H.
+    assert (Hne : a <> [] \/ r <> []).
+    { destruct a; [destruct r; [discriminate|right; discriminate]|left; discriminate]. }
+    assert (G : general_of f = Decided StError -> from_cnf f = false).
+    { unfold general_of. destruct (from_cnf f); [destruct (stored_cnf_empty f); discriminate|reflexivity]. }
+    split; [exact Hne|]. split; [reflexivity|].
+    destruct a as [|[|l [|l2 c]] [|c2 a]];
+      try (split; [now apply G|intros [_ [l0 E]]; discriminate]).
+    destruct r as [|cr r]; [discriminate|]. split; [now apply G|intros [E _]; discriminate].
+  - intros [Hne [Hc [Hf Hu]]]. now apply dispatch_no_source.
+Qed.
+
+(* an empty clause list of a CNF-compiled d-DNNF: the edited CNF is compiled as a whole (K27
+   repaired by F24) *)
+Lemma dispatch_empty_from_cnf f a r :
+  (a <> [] \/ r <> []) -> cache_hit f = false -> from_cnf f = true -> stored_cnf_empty f = true ->
+  ~ (r = [] /\ exists l, a = [[l]]) -> dispatch f a r = Decided StRecompile.
+Proof.
+  intros Hne Hc Hf Hs Hu. rewrite dispatch_general; [unfold general_of; now rewrite Hf, Hs|..]; try assumption.
+  destruct a; destruct r; cbn; try reflexivity. destruct Hne; congruence.
+Qed.
+
+(* the dispatch itself answers Tautology only for an edit without effective clauses *)
+Lemma dispatch_tautology_iff f a r : dispatch f a r = Decided StTautology <-> a = [] /\ r = [].
+Proof.
+  split.
+  - unfold dispatch. destruct a as [|c a]; destruct r as [|cr r]; cbn [is_nil andb]; try (intros; split; reflexivity);
+      (destruct (cache_hit f); [discriminate|]); fold (general_of f);
+      assert (G : general_of f <> Decided StTautology)
+        by (unfold general_of; destruct (from_cnf f); [destruct (stored_cnf_empty f)|]; discriminate);
+      intros H; exfalso; revert H.
+    + exact G.
+    + destruct c as [|l [|l2 c]]; [exact G| |exact G]. destruct a; [discriminate|exact G].
+    + destruct c as [|l [|l2 c]]; [exact G| |exact G]. destruct a; exact G.
+  - intros [-> ->]. reflexivity.
+Qed.
 
 (* BEFORE repair F16: the unit path was taken WHATEVER was to be removed in the same edit; the
    removals were then dropped (add_unit_clause does not read op_rmv): finding K26 *)
@@ -65,23 +122,23 @@ Proof.
   now rewrite E.
 Qed.
 
-(* the repair changes the decision of mixed edits only *)
-Lemma dispatch_v0_same_without_removal f a : dispatch f a [] = dispatch_v0 f a [].
+(* F16 changed the decision of mixed edits only *)
+Lemma dispatch_v0_same_without_removal f a : dispatch_v1 f a [] = dispatch_v0 f a [].
 Proof.
-  unfold dispatch, dispatch_v0.
+  unfold dispatch_v1, dispatch_v0.
   destruct a as [|[|l [|l2 c]] [|c2 a]]; reflexivity.
 Qed.
 
-(* with an empty stored clause list (every nnf-loaded model; a CNF without effective clauses) every
-   other edit is answered Tautology (nothing happens: K3 / K27) or, when the root is graph node 0,
-   Recompile of the edit's clauses ALONE (K20).  "Other" = not a pure unit edit over an existing
-   variable; since F16 a unit clause that comes with removals is such an other edit as well. *)
-Lemma dispatch_empty_store f a r :
+(* BEFORE F24 / F27 / F28 (dispatch_v1): with an empty stored clause list (every nnf-loaded model;
+   a CNF without effective clauses) every edit that is not a pure unit edit over an existing
+   variable was answered Tautology (nothing happens: K3 / K27) or, when the root is graph node 0,
+   Recompile of the edit's clauses ALONE (K20) *)
+Lemma dispatch_empty_store_v1 f a r :
   cache_hit f = false -> stored_cnf_empty f = true -> (a <> [] \/ r <> []) ->
   (forall l, a = [[l]] -> r = [] -> ig_nvars f < Z.abs l) ->
-  dispatch f a r = Decided (if root_is_node0 f then StRecompile else StTautology).
+  dispatch_v1 f a r = Decided (if root_is_node0 f then StRecompile else StTautology).
 Proof.
-  intros Hc Hs Hne Hunit. unfold dispatch. rewrite Hc, Hs.
+  intros Hc Hs Hne Hunit. unfold dispatch_v1. rewrite Hc, Hs.
   assert (Hnil : is_nil a && is_nil r = false).
   { destruct a; destruct r; cbn; try reflexivity. destruct Hne; congruence. }
   rewrite Hnil.
@@ -90,6 +147,21 @@ Proof.
   specialize (Hunit l eq_refl eq_refl). cbn [is_nil negb andb max_var fold_right].
   assert (E : (ig_nvars f <? Z.max (Z.abs l) 0) = true) by (apply Z.ltb_lt; lia).
   rewrite E. cbn. destruct (root_is_node0 f); reflexivity.
+Qed.
+
+(* where the repairs F24 / F27 / F28 changed nothing: a pure unit edit over an existing variable,
+   and every other edit on a CNF-compiled d-DNNF with a non-empty clause list *)
+Lemma dispatch_v1_same f a r :
+  from_cnf f = true -> stored_cnf_empty f = false ->
+  (forall l, a = [[l]] -> r = [] -> Z.abs l <= ig_nvars f) ->
+  dispatch f a r = dispatch_v1 f a r.
+Proof.
+  intros Hf Hs Hold. unfold dispatch, dispatch_v1. rewrite Hf, Hs. cbn [negb].
+  destruct a as [|[|l [|l2 c]] [|c2 a]]; try reflexivity.
+  destruct r as [|cr r]; [|reflexivity]. specialize (Hold l eq_refl eq_refl).
+  cbn [is_nil negb andb max_var fold_right].
+  assert (E : (ig_nvars f <? Z.max (Z.abs l) 0) = false) by (apply Z.ltb_ge; lia).
+  now rewrite E.
 Qed.
 
 (* ================================================================ the cache predicate *)
@@ -182,13 +254,11 @@ Lemma no_undo_after_unit f keys a r :
   cache_hit f = is_some (cache_find (cache_after_unit keys) a r) -> dispatch f a r <> Decided StUndo.
 Proof.
   rewrite cache_find_after_unit. cbn [is_some]. intros Hc. unfold dispatch. rewrite Hc.
-  destruct (is_nil a && is_nil r); [discriminate|].
-  assert (G : (if stored_cnf_empty f
-               then (if root_is_node0 f then Decided StRecompile else Decided StTautology)
-               else GraphDependent) <> Decided StUndo).
-  { destruct (stored_cnf_empty f); [destruct (root_is_node0 f)|]; discriminate. }
+  destruct (is_nil a && is_nil r); [discriminate|]. fold (general_of f).
+  assert (G : general_of f <> Decided StUndo).
+  { unfold general_of. destruct (from_cnf f); [destruct (stored_cnf_empty f)|]; discriminate. }
   destruct a as [|[|l [|l2 c]] [|c2 a]]; try exact G.
-  destruct (is_nil r && negb (negb (is_nil [[l]]) && (ig_nvars f <? max_var [[l]]))); [discriminate|exact G].
+  destruct (is_nil r); [discriminate|exact G].
 Qed.
 
 (* BEFORE repair F17 the unit path left the cache alone: the entry of an OLDER edit survived the
@@ -286,18 +356,22 @@ Lemma removal_after_simplify_refuted :
   length (cnf_models_n (fst (edit_spec k8_cnf 4 [] [[-4]])) 4) = 4%nat.
 Proof. vm_compute. split; reflexivity. Qed.
 
-(* K38: an edit answered Recompile adjusts the stored list twice; CNF {-1 -2} over 2 features, edit
-   (remove {-1} - a clause that is not there -, add {2}): the first round shortens {-1 -2} to {-1},
-   the second round removes it.  One round would have been right. *)
-Lemma recompile_adjusts_twice_refuted :
-  recompile_stored [[-1; -2]] [[2]] [[-1]] = [[2]] /\
-  cnf_models_n (recompile_stored [[-1; -2]] [[2]] [[-1]]) 2 = [[1; 2]; [-1; 2]] /\
+(* K38, BEFORE repair F23: an edit answered Recompile adjusted the stored list twice; CNF {-1 -2}
+   over 2 features, edit (remove {-1} - a clause that is not there -, add {2}): the first round
+   shortens {-1 -2} to {-1}, the second round removes it.  The repaired code applies the edit once. *)
+Lemma recompile_adjusts_twice_refuted_v0 :
+  recompile_stored_v0 [[-1; -2]] [[2]] [[-1]] = [[2]] /\
+  cnf_models_n (recompile_stored_v0 [[-1; -2]] [[2]] [[-1]]) 2 = [[1; 2]; [-1; 2]] /\
   cnf_models_n (fst (edit_spec [[-1; -2]] 2 [[2]] [[-1]])) 2 = [[-1; 2]] /\
-  cnf_models_n (adjust_intern_cnf [[-1; -2]] [[2]] [[-1]]) 2 = [[-1; 2]].
+  cnf_models_n (recompile_stored [[-1; -2]] [[2]] [[-1]]) 2 = [[-1; 2]].
 Proof. vm_compute. repeat split; reflexivity. Qed.
 
-(* with an empty stored list (early return of transform_to_cnf_from_starting_cnf) there is one round *)
-Lemma recompile_stored_empty a r : recompile_stored [] a r = adjust_intern_cnf [] a r.
+Lemma recompile_stored_once stored a r : recompile_stored stored a r = adjust_intern_cnf stored a r.
+Proof. reflexivity. Qed.
+
+(* with an empty stored list (early return of transform_to_cnf_from_starting_cnf) there was one
+   round before the repair as well *)
+Lemma recompile_stored_v0_empty a r : recompile_stored_v0 [] a r = recompile_stored [] a r.
 Proof. reflexivity. Qed.
 
 (* K23, BEFORE repair F14: retain(any(!=)) kept every clause when two different clauses were
